@@ -250,12 +250,38 @@ class SymNum:
             if c == 0:
                 raise ZeroDivisionError('division by zero')
             return SymNum.const(1 / c, False)
-        # single monomial with constant coefficient: invert coefficient, negative powers are not kept,
-        # so an inverse atom is introduced for the (non-constant) part.
         if bool(SymBool(self.z3() == 0)):
             raise ZeroDivisionError('division by (symbolic) zero')
-        z = 1 / self.z3real()
-        return SymNum({((_atom(z, False), 1),): Fraction(1)}, False)
+        # canonical inverse atom: 1/self = f * inv(q) with q = f*self having coprime integer coefficients and a
+        # positive leading coefficient (monomials in sorted order), so 1/(x-y) and 1/(y-x) share one atom.
+        q = _normalised(self)
+        f = None
+        for m in sorted(q.terms):
+            f = q.terms[m] / self.terms[m]
+            lead = q.terms[m]
+            break
+        if lead < 0:
+            q = SymNum({m: -c for m, c in q.terms.items()}, q.is_int)
+            f = -f
+        q = SymNum({m: q.terms[m] for m in sorted(q.terms)}, q.is_int)
+        z = 1 / q.z3real()
+        return SymNum({((_atom(z, False), 1),): Fraction(f)}, False)
+
+    def _div_monomial(self, o):
+        """Exact quotient when the divisor is a single term c*m and m divides every term of self."""
+        (m2, c2), = o.terms.items()
+        d2 = dict(m2)
+        t = {}
+        for m1, c1 in self.terms.items():
+            d1 = dict(m1)
+            for a, p in d2.items():
+                if d1.get(a, 0) < p:
+                    return None
+                d1[a] -= p
+                if d1[a] == 0:
+                    del d1[a]
+            t[tuple(sorted(d1.items()))] = c1 / c2
+        return t
 
     def __truediv__(self, o):
         o = SymNum.coerce(o)
@@ -266,6 +292,12 @@ class SymNum:
             if c == 0:
                 raise ZeroDivisionError('division by zero')
             return self._res({m: v / c for m, v in self.terms.items()}, False)
+        if len(o.terms) == 1:
+            t = self._div_monomial(o)
+            if t is not None:
+                if bool(SymBool(o.z3() == 0)):
+                    raise ZeroDivisionError('division by (symbolic) zero')
+                return self._res(t, False)
         # cancel syntactically equal numerator/denominator up to a constant factor
         r = _const_ratio(self, o)
         if r is not None:
@@ -358,7 +390,7 @@ class SymNum:
 
     def __abs__(self):
         if self.is_const():
-            return abs(self.lower())
+            return SymNum.const(abs(self.const_value()), self.is_int).lower()
         z = self.z3()
         return SymNum.from_z3(z3.If(z >= 0, z, -z)).lower()
 
@@ -1099,9 +1131,13 @@ def explore(fn, timeout_ms=20000, max_paths=100000, max_decisions=100000, on_pat
         except Unsupported as e:
             pr.outcome = 'unsupported'
             pr.exc = e
+            import traceback
+            pr.tb = traceback.format_exc()
         except RecursionError as e:  # pragma: no cover
             pr.outcome = 'unsupported'
             pr.exc = e
+            import traceback
+            pr.tb = '\n'.join(traceback.format_exc().splitlines()[:40])
         except Exception as e:
             pr.outcome = 'exception'
             pr.exc = e
